@@ -13,12 +13,12 @@ from ..model import fqual
 from ..symx import Expander
 from ..anf import R, Unsupported
 from .. import anf
-from .common import struct_ob, formula_ob, guard, last_return, U
+from .common import dtype_hazard_obligations, struct_ob, formula_ob, guard, last_return, U
 from ..report import AnalysisError
 from ..term import Resolver, pmatch, find_all, abstract, anf_of
 
 REL = "inference/approx/conditional.py"
-FLOORS = {"edge-search": 1, "inverse-cdf": 1, "taylor-branch": 2, "branch-dispatch": 1, "delta-form": 2, "cell-weight": 1,
+FLOORS = {"float-arithmetic": 1, "edge-search": 1, "inverse-cdf": 1, "taylor-branch": 2, "branch-dispatch": 1, "delta-form": 2, "cell-weight": 1,
           "sample-form": 2, "normalised": 1, "grid-in-bounds": 1,
           "conditioning-point": 2}
 
@@ -204,14 +204,40 @@ def run(prog, tier):
             pts = ncall.args[1] if len(ncall.args) > 1 else None
             fobj = ncall.args[0] if ncall.args else None
             if isinstance(pts, ast.Name) and pts.id in rg.binds:
-                for kind, bst, val, k in rg.binds[pts.id]:
-                    vt = rg.term(val, bst, keep=(pts.id,)) if val is not None else None
-                    okb = vt is not None and (pmatch(vt, f"linspace(*{bpar}[{i}], _n)") is not None
-                                              or pmatch(vt, f"linspace({bpar}[{i}][0], {bpar}[{i}][1], _n)") is not None
-                                              or pmatch(vt, f"insert({pts.id}, searchsorted({pts.id}, {cpar}[{i}]), {cpar}[{i}])") is not None)
-                    if not okb:
-                        why.append(f"search points `{U(vt)[:160] if vt is not None else None}` are not linspace over bounds[{i}] (plus the "
-                                   f"conditioning coordinate {cpar}[{i}] inserted in order)")
+                seen_names, todo, n_base = set(), [pts.id], 0
+                while todo:
+                    nm = todo.pop()
+                    if nm in seen_names or nm not in rg.binds:
+                        continue
+                    seen_names.add(nm)
+                    for kind, bst, val, k in rg.binds[nm]:
+                        vt = rg.term(val, bst, keep=(nm,)) if val is not None else None
+                        if isinstance(vt, ast.Name) and vt.id in rg.binds:
+                            todo.append(vt.id)          # a plain alias of another local: follow it
+                            continue
+                        base = vt is not None and (pmatch(vt, f"linspace(*{bpar}[{i}], _n)") is not None
+                                                   or pmatch(vt, f"linspace({bpar}[{i}][0], {bpar}[{i}][1], _n)") is not None)
+                        ins = vt is not None and pmatch(vt, f"insert({nm}, searchsorted({nm}, {cpar}[{i}]), {cpar}[{i}])") is not None
+                        n_base += bool(base)
+                        if not (base or ins):
+                            why.append(f"search points `{U(vt)[:160] if vt is not None else None}` are not linspace over bounds[{i}] (plus the "
+                                       f"conditioning coordinate {cpar}[{i}] inserted in order)")
+                if n_base != 1 and not why:
+                    why.append(f"{n_base} base grids linspace(*bounds[{i}], n) feed the search points")
+                # the coordinate is left out only when it is *exactly* one of the grid points: a tolerance-based test
+                # (isclose / allclose) has an absolute scale and drops the point for small-valued parameters
+                for nm in seen_names:
+                    for kind, bst, val, k in rg.binds.get(nm, []):
+                        if val is not None and isinstance(val, ast.Call) and U(val.func) == "insert":
+                            owner = rg.parent.get(id(bst), (None, None, None))[1]
+                            if isinstance(owner, ast.If):
+                                tt = rg.term(owner.test, owner, keep=(nm,))
+                                exact = any(pmatch(tt, pt) is not None for pt in (
+                                    f"({nm} != {cpar}[{i}]).all()", f"not ({nm} == {cpar}[{i}]).any()", f"{cpar}[{i}] not in {nm}",
+                                    f"all({nm} != {cpar}[{i}])", f"not any({nm} == {cpar}[{i}])"))
+                                if not exact:
+                                    why.append(f"the conditioning coordinate is inserted only when `{U(tt)[:120]}`, which is not an exact "
+                                               f"membership test of the search grid")
             else:
                 vt = rg.term(pts, st_) if pts is not None else None
                 if vt is None or pmatch(vt, f"linspace(*{bpar}[{i}], _n)") is None:
@@ -251,6 +277,8 @@ def run(prog, tier):
     obs.append(struct_ob("conditioning-point", f"{mi.name}.Conditional.__call__", ok,
                          f"the conditional must evaluate the posterior at a copy of the conditioning point with only coordinate "
                          f"variable_index replaced; body is {body}", REL, cfn.lineno))
+
+    obs.extend(dtype_hazard_obligations(prog, "float-arithmetic", ['inference/approx/conditional.py']))
 
     meta = {
         "explanation": "Normal-form proofs: substituting trapezium_full into dh*T^2+(1-dh)*T-x gives 0 (uses sqrt(P)^2 = P); the "
